@@ -80,6 +80,8 @@ func init() {
 		// returns the number of goroutines (other than the caller) still alive.
 		"vQuiesce": func(g *Goroutine, c *frame, fn *ssa.Function, a []Value) (Value, bool) {
 			s := g.p.sched
+			g.p.quiescing = true
+			defer func() { g.p.quiescing = false }()
 			for i := 0; i < 10000; i++ {
 				others := false
 				for _, r := range s.runnable() {
